@@ -43,8 +43,11 @@ PROPS = {
     "C19": {
         "driver": "c19", "trace_spec": "TraceBodyWriter",
         "mc_quick": [mc("MCChunkPlan", "MCChunkPlan_small.cfg"), mc("MCChunkPlan", "MCChunkPlan_real_quick.cfg", workers=8),
-                     mc("MCChunkPlan", "MCChunkPlan_defect.cfg", expect_violation="ImplRefinesAbs")],
-        "mc_thorough": [mc("MCChunkPlan", "MCChunkPlan_small.cfg"), mc("MCChunkPlan", "MCChunkPlan_real_thorough.cfg", workers=16, timeout=3000)],
+                     mc("MCChunkPlan", "MCChunkPlan_defect.cfg", expect_violation="ImplRefinesAbs"),
+                     mc("MCSendLoop", "MCSendLoop.cfg", workers=2), mc("MCSendLoop", "MCSendLoop_real.cfg", workers=2),
+                     mc("MCSendLoop", "MCSendLoop_defect.cfg", workers=2, expect_violation="Terminates")],
+        "mc_thorough": [mc("MCChunkPlan", "MCChunkPlan_small.cfg"), mc("MCChunkPlan", "MCChunkPlan_real_thorough.cfg", workers=16, timeout=3000),
+                        mc("MCSendLoop", "MCSendLoop.cfg", workers=2), mc("MCSendLoop", "MCSendLoop_real.cfg", workers=2)],
         "require_classes": ["w:partial", "w:multi-chunk"],
         "rule": "one case = one probe write (input length, buffer length) on a fresh writer, grouped in rows per buffer length, "
                 "or one whole-body send loop with a fixed buffer; distinct = distinct (buffer length, input length) / loop configuration",
@@ -56,9 +59,10 @@ BR_ASSUME = ["response bodies are reached through a GET exchange whose head is d
 
 PROPS["C07"] = {
     "driver": "c07", "trace_spec": "TraceBodyReader", "scripts": "dechunk",
-    "mc_quick": [mc("MCDechunk", "MCDechunk_q1.cfg", workers=6), mc("MCDechunk", "MCDechunk_q2.cfg", workers=6)],
-    "mc_thorough": [mc("MCDechunk", "MCDechunk_q1.cfg", workers=6), mc("MCDechunk", "MCDechunk_thorough.cfg", workers=16, timeout=3400, heap="12g"), mc("MCDechunk", "MCDechunk_three.cfg", workers=8)],
-    "require_classes": ["r:consume-only", "r:nothing", "r:filled-output"],
+    "mc_quick": [mc("MCDechunk", "MCDechunk_q1.cfg", workers=6), mc("MCDechunk", "MCDechunk_q2.cfg", workers=6),
+                 mc("MCDechunk", "MCDechunk_live.cfg", workers=2)],
+    "mc_thorough": [mc("MCDechunk", "MCDechunk_q1.cfg", workers=6), mc("MCDechunk", "MCDechunk_thorough.cfg", workers=16, timeout=3400, heap="12g"), mc("MCDechunk", "MCDechunk_three.cfg", workers=8), mc("MCDechunk", "MCDechunk_live.cfg", workers=2)],
+    "require_classes": ["r:consume-only", "r:nothing", "r:filled-output", "r:zero-out-framing"],
     "require_kinds": ["r", "verdict"],
     "rule": "one case = one valid chunked coding (model table, small-scope grammar, hex-digit boundary sizes, random) + one arrival/buffer/stop schedule "
             "(model edge-cover script, exhaustive cut set, single/double cut, 1-byte arrivals, random); distinct = distinct (family, coding index / shape)",
@@ -79,7 +83,7 @@ PROPS["C05"] = {
     "mc_quick": [mc("MCHeadPrefix", "MCHeadPrefix.cfg"), mc("MCHeadPrefix", "MCHeadPrefix_clean.cfg"),
                  mc("MCHeadPrefix", "MCHeadPrefix_kf1.cfg", expect_violation="Refines"),
                  mc("MCHeadPrefix", "MCHeadPrefix_f4.cfg", expect_violation="Refines")],
-    "require_classes": ["offer:3xx-after-location", "offer:shorter-than-version", "offer:h-1", "offer:over-limit"],
+    "require_classes": ["offer:3xx-after-location", "offer:shorter-than-version", "offer:h-1", "offer:over-limit", "offer:sequence"],
     "rule": "one case = one generated well-formed response head (status, version, reason, 0..130 fields with OWS / empty / obs-text values, Location position) "
             "followed by arbitrary bytes, offered at every prefix length 0..|H|+3 to a fresh Flow<RecvResponse> or Call<RecvResponse>; "
             "distinct = distinct (status class, field count, reason class, Location position class)",
@@ -152,7 +156,7 @@ PROPS["C09"] = {
 PROPS["C10"] = {
     "driver": "c10", "trace_spec": "TraceFlow",
     "mc_quick": FLOW_MC_Q[:1] + FLOW_MC_Q[3:], "mc_thorough": FLOW_MC_T,
-    "require_classes": ["verdict:redirect", "verdict:cleanup", "c10:refusal"],
+    "require_classes": ["verdict:redirect", "verdict:cleanup", "c10:refusal", "c10:truncated-3xx-answered"],
     "rule": "one case = one combination of request version x request Connection {absent, close, keep-alive, both} x method x Expect outcome {none, 100, timeout, late 100, refused bare / with fields / with Connection: close} "
             "x response version x status {200,204,302,304,403} x framing x response Connection {absent, close, keep-alive, both}, driven to Cleanup with the verdict read in Redirect and Cleanup; "
             "quick = a seeded eleventh, thorough = all; distinct = distinct combinations",
